@@ -458,7 +458,31 @@ func projectSymbols(ss []decoder.Symbol) []projSym {
 }
 
 func c19Pair(cfg []citem, arrayForm bool, c *report.Collector, l *report.Local) {
-	ent := gen.Entry{ID: "J:c19", Mk: c19Schema, Family: "struct", Hooks: -1}
+	c19PairIn(gen.Entry{ID: "J:c19", Mk: c19Schema, Family: "struct", Hooks: -1}, cfg, arrayForm, c, l)
+}
+
+// c19ConsForms: the value forms both syntaxes express, placed under every constraint of the catalogue.
+func c19ConsForms() []cval {
+	// (plain strings are not spelled like a traversal: a JSON string that is one IS a reference under a
+	// Reference constraint - the documented legacy form, covered as "reflegacy" in part 1)
+	return []cval{cStr("x y"), cStr("foo !"), cStr(""), cNum("3"), cBool("true"), cRef("decl.foo"), cRef("decl.foo.bar"), cTmpl("decl.foo.bar"),
+		cList(), cList(cStr("a b")), cList(cStr("a b"), cRef("decl.foo.bar")), cList(cList(cStr("n n"))), cList(cObj("foo", cStr("x y"))),
+		cObj(), cObj("foo", cStr("x y")), cObj("foo", cStr("x y"), "bar", cBool("true")), cObj("foo", cRef("decl.foo.bar"), "bar", cRef("decl.foo")), cObj("k", cObj("foo", cList(cNum("1"), cNum("2")))),
+		cObj("foo", cList(cStr("a b"), cStr("b c")))}
+}
+
+// c19ConsConfigs: the three places of a one-constraint body.
+func c19ConsConfigs(f cval) [][]citem {
+	attr := func(n string, v cval) citem { return citem{attr: n, val: v} }
+	decl := citem{block: "decl", labels: []string{"foo"}, body: []citem{attr("bar", cStr("x"))}}
+	return [][]citem{
+		{decl, attr("attr", f)},
+		{decl, attr("attr2", f)},
+		{decl, {block: "blk", body: []citem{attr("attr", f), {block: "nb", body: []citem{attr("attr", f)}}}}},
+	}
+}
+
+func c19PairIn(ent gen.Entry, cfg []citem, arrayForm bool, c *report.Collector, l *report.Local) {
 	nat := renderNative(cfg, "")
 	jb, err := json.MarshalIndent(renderJSON(cfg, arrayForm), "", "  ")
 	if err != nil {
@@ -592,11 +616,26 @@ func C19(tier string) int {
 	explore.ParallelEach(len(cfgs)*2, c, explore.Deadline(tier), func(i int, l *report.Local) {
 		c19Pair(cfgs[i/2], i%2 == 1, c, l)
 	})
+	// part 2: every constraint of the catalogue x every value form both syntaxes express x the three places
+	var cons []gen.Entry
+	for _, e := range gen.Catalogue(tier) {
+		if e.Family == "cons" {
+			e.Extra = nil
+			cons = append(cons, e)
+		}
+	}
+	forms := c19ConsForms()
+	explore.ParallelEach(len(cons)*len(forms), c, explore.Deadline(tier), func(i int, l *report.Local) {
+		for _, cfg := range c19ConsConfigs(forms[i%len(forms)]) {
+			c19PairIn(cons[i/len(forms)], cfg, false, c, l)
+		}
+		l.Count("constraint_pairs", 3)
+	})
 	c.Sample(map[string]any{"native": renderNative(cfgs[0], ""), "json": func() string { b, _ := json.Marshal(renderJSON(cfgs[0], false)); return string(b) }()})
 	_ = lang.Path{}
 	return c.Finish(report.FinishOpts{
 		Tier: tier, Level: "exploration", EvalCounter: "calls",
-		Rule:         "E2 differential: abstract configurations over the constructs both syntaxes express (blocks with 0-2 labels, several blocks of a type, literals of all types, lists/maps/objects nested, references as \"${...}\" templates and legacy bare strings, templates with surrounding text, any-attribute bodies) rendered twice (native; JSON in object form and in array form) under one schema with addressable blocks (as reference, body-as-data with inferred list/object nested blocks), addressable attributes (as reference + expression type) and every constraint kind; oracle: equal projections of absolute targets (address, type, scope, name, nesting), of local origins (addresses equal; constraints equal or the JSON one is the unconstrained/dynamic one), and of the symbol outline (kind, name, nesting). non-trivial = non-empty target projection",
-		BiteCounters: []string{"pairs", "targets_compared", "origins_compared", "symbols_compared"},
+		Rule:         "E2 differential: abstract configurations over the constructs both syntaxes express (blocks with 0-2 labels, several blocks of a type, literals of all types, lists/maps/objects nested, references as \"${...}\" templates and legacy bare strings, templates with surrounding text, any-attribute bodies) rendered twice (native; JSON in object form and in array form) under one schema with addressable blocks (as reference, body-as-data with inferred list/object nested blocks), addressable attributes (as reference + expression type) and every constraint kind; oracle: equal projections of absolute targets (address, type, scope, name, nesting), of local origins (addresses equal; constraints equal or the JSON one is the unconstrained/dynamic one), and of the symbol outline (kind, name, nesting). Part 2: every one-constraint body of the catalogue (all constraint kinds and nestings of the tier) x 19 value forms both syntaxes express (strings not spelled like a traversal, numbers, booleans, references, templates, lists/objects nested, empty collections) x 3 places (root attribute, addressable root attribute, block attribute + nested block attribute inside an inferred, self-referable body), same oracle. Symbol order: where a configuration keeps blocks of one type together the outlines are equal as sequences. non-trivial = non-empty target projection",
+		BiteCounters: []string{"pairs", "constraint_pairs", "targets_compared", "origins_compared", "symbols_compared", "symbol_orders_compared"},
 	})
 }
